@@ -15,6 +15,7 @@ func init() {
 			parserHelperRules(c, "C09")
 			c17Selection(c)
 			c17UnsafeViews(c)
+			configReadOnlyRules(c, "C09")
 		},
 	})
 }
